@@ -11,7 +11,8 @@ META = {
                    'Err the instruction buffer, loop contexts, peephole register and scope/context depth are what they were (CSA error-exit '
                    'states + an explicit reset on the error path). R17.3 global definitions of a failed line are removed or reading a '
                    'never-stored slot is defined. R17.4 nothing that persists across lines (VM.globals, Compiler.constants) may refer to '
-                   'something whose lifetime is a single line (the per-run collector\'s objects, positions in the per-line code buffer).',
+                   'something whose lifetime is a single line (the per-run collector\'s objects, positions in the per-line code buffer).'
+                   ' R17.5 persistent VM fields are never cut back. R17.6 the reset after a failed line restores every Context field a declaration writes; only the true length of the outermost global scope counts as the mark to cut back to.',
     'not_decided': ['the session/concatenation equivalence itself (a relation between runs)'],
 }
 PERSISTENT = {'globals': "the session's variables", 'globals_assigned': "which of the session's variables have been stored to"}
@@ -230,6 +231,9 @@ def run(ctx, rep):
     rep.ob(looks_up or bool(retract), 'R17.3', 'symbols::Context::define', 'redeclaration after a failed run',
            'every `stel` takes a fresh slot at compile time and nothing takes the declaration back when the line fails at run time before '
            'its store: after `stel x = 1` and a failing `stel x = 1/0`, `x` names the new, never-stored slot instead of still being 1', cd.loc())
+    # everything a declaration writes in the table is taken back with it
+    rep.rule('R17.6', 'taking a failed line\'s declarations back restores every piece of state a declaration writes (no cached count or index left behind)')
+    check_reset_covers_define(ctx, rep, 'R17.6')
     # what a line stored stays stored: the session's variables are only ever grown or overwritten slot by slot
     rep.rule('R17.5', 'the persistent fields of the VM are never cut back (a failing line keeps the assignments it completed)')
     SHRINK_ = ('::truncate', '::clear', '::pop', '::remove', '::swap_remove', '::drain', '::split_off', '::retain', '::set_len', 'mem::take', 'mem::replace', 'mem::swap')
@@ -263,3 +267,44 @@ def run(ctx, rep):
     rep.ob(not takes, 'R17.4', 'compiler::Compiler::compile_ast', 'function values vs per-line code buffer',
            'function values (in globals and in the retained constant pool) hold absolute positions in the instruction buffer, but compile_ast '
            'hands out a fresh buffer per line (mem::take): a function defined on an earlier line points into code that no longer exists', ca.loc())
+
+
+def _ctx_fields_touched(F, fn, depth=0, seen=None):
+    """fields of symbols::Context that fn (or a function of the symbol table it calls) assigns or borrows mutably"""
+    seen = seen if seen is not None else set()
+    if fn.path in seen or depth > 3:
+        return set()
+    seen.add(fn.path)
+    out = set()
+
+    def fields_of(pl):
+        return [e['name'] for e in pl['proj'] if isinstance(e, dict) and 'field' in e and e.get('of') == 'symbols::Context']
+    for b, si, st in fn.stmts():
+        if st['k'] != 'assign':
+            continue
+        out |= set(fields_of(st['place'])[:1])
+        rv = st['rv']
+        if rv['k'] == 'ref' and rv.get('mut'):
+            out |= set(fields_of(rv['place'])[:1])
+    for b, t_ in fn.calls():
+        n = callee_name(t_)
+        g = F.fns.get(n)
+        if g is not None and n.startswith('symbols::') and any(a.get('k') in ('copy', 'move') and 'mut' in fn.local_ty(a['place']['local'])[:16] for a in t_['args'][:1]):
+            out |= _ctx_fields_touched(F, g, depth + 1, seen)
+    return out
+
+
+def check_reset_covers_define(ctx, rep, rule):
+    """Context::define is what a declaration does to the table; SymbolTable::reset_to_global is how compile_ast takes the declarations
+    of a failed line back.  Every field of Context that define writes is written by the reset as well - except the frame size
+    (max_size), which only ever grows and is a bound, not a position (R02.6).  A field define keeps up to date and the reset
+    forgets (a cached count of names, say) leaves the slots of the next lines shifted."""
+    F = ctx.facts()
+    d = F.fn('symbols::Context::define')
+    r = F.fn('symbols::SymbolTable::reset_to_global')
+    wd = _ctx_fields_touched(F, d)
+    wr = _ctx_fields_touched(F, r)
+    rep.count('define_fields', len(wd))
+    missing = sorted(wd - wr - {'max_size'})
+    rep.ob(bool(wd) and not missing, rule, r.path, 'restores what define writes',
+           'define writes %s, the reset writes %s%s' % (sorted(wd), sorted(wr), ('; not restored: %s' % missing) if missing else ''), r.loc())
